@@ -1,5 +1,6 @@
 (* C08 - A new context ignores inputs that were already held when it was created. *)
-From BEI Require Import Model.Action Spec.ReadSpec Proofs.ReaderP Proofs.ActionP Proofs.SuppressP.
+From BEI Require Import Model.Frame Spec.ReadSpec Proofs.ReaderP Proofs.ActionP Proofs.SuppressP
+  Proofs.RegistryP Proofs.FrameLiftP Proofs.SuppressLiftP.
 Open Scope Z_scope.
 
 (* [phys r dev i]: the key/button/axis the binding names is down / non-zero in the raw device state and
@@ -36,6 +37,276 @@ Proof. exact instantiate_ignored. Qed.
 Theorem C08_independent_of_consumption : forall r c dev b, skipped r c dev b = ib_ignored b && phys r dev (ib_input b).
 Proof. exact skipped_phys. Qed.
 
+(* ================================================================================================ *)
+(* The statements above are about one iteration of the loop over an action's input bindings.  Below  *)
+(* they are lifted to whole action evaluations, instances, the registry update, frames and sequences *)
+(* of frames, and tied to insertion and rebuild (Proofs/SuppressLiftP.v).                            *)
+(* ================================================================================================ *)
+
+(* ---- 1. one evaluation of an action (ActionBind::update) ---- *)
+(* the binding stored afterwards has the same id, the same action-level modifiers and conditions (by id), and
+   its inputs correspond one to one, in order, to the old ones: same input, same modifiers and conditions (by
+   id), new flag = old flag && physically active; an input still suppressed is stored back unchanged, so the
+   state of its conditions and modifiers has not been driven *)
+Theorem C08_action_evaluation : forall m tm r c dev recips ab,
+  let ab' := o_bind (action_update m tm r c dev recips ab) in
+  ab_id ab' = ab_id ab /\
+  ids_of (ab_mods ab') = ids_of (ab_mods ab) /\ ids_of (ab_conds ab') = ids_of (ab_conds ab) /\
+  Forall2 (fun b b' =>
+             ib_input b' = ib_input b /\
+             ids_of (ib_mods b') = ids_of (ib_mods b) /\ ids_of (ib_conds b') = ids_of (ib_conds b) /\
+             ib_ignored b' = ib_ignored b && phys r dev (ib_input b) /\
+             (ib_ignored b && phys r dev (ib_input b) = true -> b' = b))
+          (ab_inputs ab) (ab_inputs ab').
+Proof. exact action_update_flags. Qed.
+Theorem C08_action_evaluation_flags : forall m tm r c dev recips ab,
+  let ab' := o_bind (action_update m tm r c dev recips ab) in
+  map ib_input (ab_inputs ab') = map ib_input (ab_inputs ab) /\
+  map ib_ignored (ab_inputs ab') = map (fun b => ib_ignored b && phys r dev (ib_input b)) (ab_inputs ab).
+Proof. exact action_update_flag_list. Qed.
+(* a suppressed, physically active input does not contribute to its action: the ActionsData, the consumed
+   set, the events, the log and the action-level modifiers and conditions are those of the evaluation of the
+   action with only its other inputs *)
+Theorem C08_suppressed_does_not_contribute : forall m tm r c dev recips ab,
+  let o := action_update m tm r c dev recips ab in
+  let o' := action_update m tm r c dev recips
+              (mkAbind (ab_id ab) (ab_mods ab) (ab_conds ab)
+                       (filter (fun b => negb (ib_ignored b && phys r dev (ib_input b))) (ab_inputs ab))) in
+  o_actions o = o_actions o' /\ o_consumed o = o_consumed o' /\ o_events o = o_events o' /\ o_log o = o_log o' /\
+  ab_mods (o_bind o) = ab_mods (o_bind o') /\ ab_conds (o_bind o) = ab_conds (o_bind o').
+Proof. exact action_update_live. Qed.
+
+(* ---- 2. one update of an instance / of the registry ---- *)
+(* [flags_step r i i']: i' has the device of i and its bindings correspond one to one, in order, to those of i
+   as in C08_action_evaluation with dev = the instance's own device.  Only the raw input r occurs in it: the
+   consumed set, the time and the recipients play no role. *)
+Theorem C08_instance_update : forall tm r c recips i,
+  let i' := io_inst (inst_update tm r c recips i) in
+  in_pad i' = in_pad i /\ Forall2 (abind_step r (in_pad i)) (in_binds i) (in_binds i').
+Proof. exact inst_update_flags. Qed.
+(* groups one to one, in order; an exclusive group keeps type, priority and its entries (same entity, instance
+   stepped); a shared group keeps type, priority, entity list and has its instance stepped *)
+Theorem C08_registry_update : forall tm r gs c,
+  Forall2 (fun g g' =>
+             match g, g' with
+             | GExcl cx p insts, GExcl cx' p' insts' =>
+                 cx' = cx /\ p' = p /\
+                 Forall2 (fun ei ei' => fst ei' = fst ei /\ flags_step r (snd ei) (snd ei')) insts insts'
+             | GShared cx p ents i, GShared cx' p' ents' i' => cx' = cx /\ p' = p /\ ents' = ents /\ flags_step r i i'
+             | _, _ => False
+             end)
+          gs (ro_reg (reg_update tm r c gs)).
+Proof. exact reg_update_flags. Qed.
+Theorem C08_registry_update_get : forall tm r c0 gs c e i,
+  reg_get c e gs = Some i ->
+  exists i', reg_get c e (ro_reg (reg_update tm r c0 gs)) = Some i' /\ flags_step r i i'.
+Proof. exact reg_update_get. Qed.
+
+(* ---- 3. sequences of frames ---- *)
+(* [flags_after rs i i']: same device, bindings and inputs one to one in order, same inputs and ids, every flag
+   is [flag_after input (device of i) (flag in i) rs], and an input still suppressed is unchanged *)
+Theorem C08_flags_after_unfold : forall rs i i',
+  flags_after rs i i' <->
+  in_pad i' = in_pad i /\
+  Forall2 (fun ab ab' =>
+             ab_id ab' = ab_id ab /\
+             ids_of (ab_mods ab') = ids_of (ab_mods ab) /\ ids_of (ab_conds ab') = ids_of (ab_conds ab) /\
+             Forall2 (fun b b' =>
+                        ib_input b' = ib_input b /\
+                        ids_of (ib_mods b') = ids_of (ib_mods b) /\ ids_of (ib_conds b') = ids_of (ib_conds b) /\
+                        ib_ignored b' = flag_after (ib_input b) (in_pad i) (ib_ignored b) rs /\
+                        (flag_after (ib_input b) (in_pad i) (ib_ignored b) rs = true -> b' = b))
+                     (ab_inputs ab) (ab_inputs ab'))
+          (in_binds i) (in_binds i').
+Proof. intros rs i i'. exact (iff_refl _). Qed.
+(* any chain of per-frame steps *)
+Theorem C08_frames_chain : forall rs i i', flags_run rs i i' -> flags_after rs i i'.
+Proof. exact flags_run_after. Qed.
+(* one instance updated frame after frame with arbitrary times, consumed sets and recipients *)
+Theorem C08_frames_instance : forall fs i, flags_after (map if_raw fs) i (inst_frames fs i).
+Proof. exact inst_frames_after. Qed.
+(* the registry updated frame after frame (arbitrary times and initial consumed sets), nothing else touching it *)
+Theorem C08_frames_registry : forall fs gs c e i,
+  reg_get c e gs = Some i ->
+  exists i', reg_get c e (reg_frames fs gs) = Some i' /\ flags_after (map rf_raw fs) i i'.
+Proof. exact reg_frames_after. Qed.
+(* frames of the plugin in which no component operation is issued *)
+Theorem C08_frames_world : forall sc fs w w' c e i,
+  Forall (fun f => f_ops f = []) fs -> steps_world sc w (map SFrame fs) = Some w' ->
+  reg_get c e (w_reg w) = Some i ->
+  exists i', reg_get c e (w_reg w') = Some i' /\ flags_after (map f_raw fs) i i'.
+Proof. exact quiet_frames_after. Qed.
+Theorem C08_frames_by_position : forall rs i i' k j ab b,
+  flags_after rs i i' ->
+  nth_error (in_binds i) k = Some ab -> nth_error (ab_inputs ab) j = Some b ->
+  exists ab' b', nth_error (in_binds i') k = Some ab' /\ nth_error (ab_inputs ab') j = Some b' /\
+    ab_id ab' = ab_id ab /\ ib_input b' = ib_input b /\
+    ib_ignored b' = flag_after (ib_input b) (in_pad i) (ib_ignored b) rs /\
+    (ib_ignored b' = true -> b' = b).
+Proof. exact flags_after_nth. Qed.
+(* an instance all of whose flags are set (a fresh one, C08_fresh_instance_suppressed): after the frames rs an
+   input is still suppressed iff it was physically active in every one of them, and then it is untouched *)
+Theorem C08_fresh_after_frames : forall rs i i',
+  Forall (fun ab => Forall (fun ib => ib_ignored ib = true) (ab_inputs ab)) (in_binds i) ->
+  flags_after rs i i' ->
+  in_pad i' = in_pad i /\
+  Forall2 (fun ab ab' =>
+             ab_id ab' = ab_id ab /\
+             ids_of (ab_mods ab') = ids_of (ab_mods ab) /\ ids_of (ab_conds ab') = ids_of (ab_conds ab) /\
+             Forall2 (fun b b' =>
+                        ib_input b' = ib_input b /\
+                        ids_of (ib_mods b') = ids_of (ib_mods b) /\ ids_of (ib_conds b') = ids_of (ib_conds b) /\
+                        ib_ignored b' = forallb (fun r => phys r (in_pad i) (ib_input b)) rs /\
+                        (forallb (fun r => phys r (in_pad i) (ib_input b)) rs = true -> b' = b))
+                     (ab_inputs ab) (ab_inputs ab'))
+          (in_binds i) (in_binds i').
+Proof. exact suppressed_after. Qed.
+Theorem C08_fresh_instance_after_frames : forall rs s i',
+  flags_after rs (instantiate s) i' -> fresh_after rs (instantiate s) i'.
+Proof. exact fresh_instance_after. Qed.
+Theorem C08_fresh_instance_device : forall s, in_pad (instantiate s) = i_pad s.
+Proof. exact instantiate_pad. Qed.
+Theorem C08_fresh_by_position : forall rs i i' k j ab b,
+  fresh_after rs i i' ->
+  nth_error (in_binds i) k = Some ab -> nth_error (ab_inputs ab) j = Some b ->
+  exists ab' b', nth_error (in_binds i') k = Some ab' /\ nth_error (ab_inputs ab') j = Some b' /\
+    ab_id ab' = ab_id ab /\ ib_input b' = ib_input b /\
+    (ib_ignored b' = true <-> forall r, In r rs -> phys r (in_pad i) (ib_input b) = true) /\
+    (ib_ignored b' = true -> b' = b).
+Proof. exact fresh_after_nth. Qed.
+(* a fresh instance in the registry, then frames *)
+Theorem C08_fresh_then_frames_registry : forall fs gs c e i,
+  reg_get c e gs = Some i -> all_suppressed i ->
+  exists i', reg_get c e (reg_frames fs gs) = Some i' /\ fresh_after (map rf_raw fs) i i'.
+Proof. exact fresh_then_reg_frames. Qed.
+Theorem C08_fresh_then_frames_world : forall sc fs w w' c e i,
+  reg_get c e (w_reg w) = Some i -> all_suppressed i ->
+  Forall (fun f => f_ops f = []) fs -> steps_world sc w (map SFrame fs) = Some w' ->
+  exists i', reg_get c e (w_reg w') = Some i' /\ fresh_after (map f_raw fs) i i'.
+Proof. exact fresh_then_quiet_frames. Qed.
+
+(* ---- 4. what is invoked in a frame ---- *)
+(* the ids an action contributes to the invocation log do not depend on the consumed set *)
+Theorem C08_action_invocations : forall r c dev ab,
+  action_ids r c dev ab =
+  concat (map (fun b => input_ids (ib_ignored b && phys r dev (ib_input b)) b) (ab_inputs ab)) ++
+  ids_of (ab_mods ab) ++ ids_of (ab_conds ab).
+Proof. exact action_ids_live. Qed.
+(* a suppressed, physically active input contributes none; any other input all of its own, in order *)
+Theorem C08_suppressed_invokes_nothing : forall r dev b,
+  ib_ignored b = true -> phys r dev (ib_input b) = true ->
+  input_ids (ib_ignored b && phys r dev (ib_input b)) b = [].
+Proof. exact suppressed_no_ids. Qed.
+Theorem C08_unsuppressed_invokes_all : forall r dev b,
+  ib_ignored b = false \/ phys r dev (ib_input b) = false ->
+  input_ids (ib_ignored b && phys r dev (ib_input b)) b = ids_of (ib_mods b) ++ ids_of (ib_conds b).
+Proof. exact unsuppressed_ids. Qed.
+Theorem C08_all_suppressed_invocations : forall r dev ab,
+  Forall (fun b => ib_ignored b = true /\ phys r dev (ib_input b) = true) (ab_inputs ab) ->
+  live_ids r dev ab = ids_of (ab_mods ab) ++ ids_of (ab_conds ab).
+Proof. exact all_suppressed_ids. Qed.
+(* the invocation log of a registry update / of a frame: record by record (LIFT), with the record's device *)
+Theorem C08_update_invocations : forall tm r c gs,
+  map log_id (ro_log (reg_update tm r c gs)) =
+  flat_map (fun e => live_ids r (er_dev e) (er_bind e)) (evaluations tm r c gs).
+Proof. exact reg_update_live_ids. Qed.
+(* every record: the ids it logs, the flags of the binding it stores (as C08_action_evaluation), and its
+   ActionsData, consumed set, events and log are those of evaluating only the live inputs of its binding *)
+Theorem C08_every_record : forall tm r c gs,
+  Forall (fun e =>
+    map log_id (rec_log e) = live_ids r (er_dev e) (er_bind e) /\
+    abind_step r (er_dev e) (er_bind e) (o_bind (er_out e)) /\
+    let o' := action_update (er_table e) tm r (er_consumed e) (er_dev e) (er_recipients e)
+                            (live_part r (er_dev e) (er_bind e)) in
+    o_actions (er_out e) = o_actions o' /\ o_consumed (er_out e) = o_consumed o' /\
+    o_events (er_out e) = o_events o' /\ o_log (er_out e) = o_log o')
+  (evaluations tm r c gs).
+Proof. exact evaluations_suppress. Qed.
+Theorem C08_frame_invocations : forall sc w f fo,
+  frame sc w f = Some fo ->
+  map log_id (fo_log fo) = flat_map (fun e => live_ids (f_raw f) (er_dev e) (er_bind e)) (frame_evals w f) /\
+  Forall (rec_suppress (frame_time f) (f_raw f)) (frame_evals w f).
+Proof. exact frame_suppress. Qed.
+
+(* ---- 5. insertion and rebuild store fresh instances ---- *)
+Theorem C08_constructor_suppressed : forall sc c e, all_suppressed (mk_inst sc c e).
+Proof. exact mk_inst_suppressed. Qed.
+(* insertion when the type has no group: a new group with the instance built for the entity *)
+Theorem C08_add_new_group : forall sc c e r,
+  index_of c r = None ->
+  reg_get c e (reg_add (mk_inst sc c) c e r) = Some (mk_inst sc c e) /\ all_suppressed (mk_inst sc c e).
+Proof. exact reg_add_fresh_suppressed. Qed.
+(* insertion into an exclusive group: a new entry with the instance built for the entity; the others keep theirs *)
+Theorem C08_add_exclusive_entry : forall sc c e l1 p insts l2,
+  ~ In c (map g_ctx l1) -> ~ In e (map fst insts) ->
+  reg_get c e (reg_add (mk_inst sc c) c e (l1 ++ GExcl c p insts :: l2)) = Some (mk_inst sc c e) /\
+  all_suppressed (mk_inst sc c e) /\
+  forall e', e' <> e -> reg_get c e' (reg_add (mk_inst sc c) c e (l1 ++ GExcl c p insts :: l2)) =
+                        reg_get c e' (l1 ++ GExcl c p insts :: l2).
+Proof. exact reg_add_excl_suppressed. Qed.
+(* the same through the plugin's insert operation *)
+Theorem C08_insert_first_holder : forall sc w e c cs,
+  holds_of e (w_holds w) = Some cs -> memz c (s_menu sc) = true -> index_of c (w_reg w) = None -> mirror w ->
+  reg_get c e (w_reg (oo_world (insert_ctx sc w e c))) = Some (mk_inst sc c e).
+Proof. exact insert_fresh. Qed.
+Theorem C08_insert_exclusive : forall sc w e c cs,
+  reg_inv sc w ->
+  holds_of e (w_holds w) = Some cs -> memz c cs = false -> memz c (s_menu sc) = true -> ctx_shared c = false ->
+  let w' := oo_world (insert_ctx sc w e c) in
+  reg_get c e (w_reg w') = Some (mk_inst sc c e) /\
+  forall e', e' <> e -> reg_get c e' (w_reg w') = reg_get c e' (w_reg w).
+Proof. exact insert_exclusive. Qed.
+(* rebuild of a type: exclusive group - every entry gets the instance built for its entity; shared group - the
+   common instance is the one built for the first entity of the list; other types are not touched *)
+Theorem C08_rebuild_exclusive : forall mk tm c l1 p insts l2,
+  ~ In c (map g_ctx l1) ->
+  exists evs, reg_rebuild mk tm c (l1 ++ GExcl c p insts :: l2) =
+              Some (l1 ++ GExcl c p (map (fun ei => (fst ei, mk (fst ei))) insts) :: l2, evs) /\
+  forall e, In e (map fst insts) ->
+    reg_get c e (l1 ++ GExcl c p (map (fun ei => (fst ei, mk (fst ei))) insts) :: l2) = Some (mk e).
+Proof. exact reg_rebuild_excl. Qed.
+Theorem C08_rebuild_shared : forall mk tm c l1 p e0 ents i l2,
+  ~ In c (map g_ctx l1) ->
+  reg_rebuild mk tm c (l1 ++ GShared c p (e0 :: ents) i :: l2) =
+  Some (l1 ++ GShared c p (e0 :: ents) (mk e0) :: l2, trigger_removed tm (e0 :: ents) i) /\
+  forall e, In e (e0 :: ents) -> reg_get c e (l1 ++ GShared c p (e0 :: ents) (mk e0) :: l2) = Some (mk e0).
+Proof. exact reg_rebuild_shared. Qed.
+Theorem C08_rebuild : forall mk tm c r r' evs,
+  reg_rebuild mk tm c r = Some (r', evs) ->
+  (forall e, reg_get c e r <> None ->
+     exists e0, reg_get c e r' = Some (mk e0) /\ reg_get c e0 r <> None /\
+       (forall l1 p insts l2, r = l1 ++ GExcl c p insts :: l2 -> ~ In c (map g_ctx l1) -> e0 = e)) /\
+  (forall c' e, c' <> c -> reg_get c' e r' = reg_get c' e r).
+Proof. exact reg_rebuild_fresh. Qed.
+Theorem C08_rebuild_suppressed : forall sc tm c r r' evs,
+  reg_rebuild (mk_inst sc c) tm c r = Some (r', evs) ->
+  forall e, reg_get c e r <> None -> exists i', reg_get c e r' = Some i' /\ all_suppressed i'.
+Proof. exact reg_rebuild_suppressed. Qed.
+(* the plugin's Rebuild operation: every holder of every registered type sees an all-suppressed instance *)
+Theorem C08_rebuild_operation : forall sc w o,
+  apply_op sc w ORebuild = Some o ->
+  forall c e, In c (s_menu sc) -> reg_get c e (w_reg w) <> None ->
+  exists i, reg_get c e (w_reg (oo_world o)) = Some i /\ all_suppressed i.
+Proof. exact rebuild_op_fresh. Qed.
+
+(* an exclusive context inserted for entity 5 while key 1 is held and key 2 is not: action 0 has one binding per
+   key, with conditions 7 and 8.  Both flags start set; key 2's is cleared by the first frame and only its
+   condition runs; key 1's stays set while the key is held, is cleared by the frame in which it is up, and from
+   then on both conditions run *)
+Example C08_lift_nonvacuous :
+  let s := mkSpec None [mkAction 0 [] [] [mkBind (IKey 1 0) [] [(7, c_press (1#2))]; mkBind (IKey 2 0) [] [(8, c_press (1#2))]]] in
+  let gs := reg_add (fun _ => instantiate s) 2 5 [] in
+  let held := mkRaw [1] [] (0%Q, 0%Q) (0%Q, 0%Q) [] [] in
+  let fr r := mkRegFrame (mkTime (1#8) 1) r (update_state r) in
+  let flags gs := option_map (fun i => map (fun ab => map ib_ignored (ab_inputs ab)) (in_binds i)) (reg_get 2 5 gs) in
+  let ids r gs := map log_id (ro_log (reg_update (mkTime (1#8) 1) r (update_state r) gs)) in
+  flags gs = Some [[true; true]] /\
+  flags (reg_frames [fr held; fr held] gs) = Some [[true; false]] /\
+  ids held gs = [8] /\ ids held (reg_frames [fr held] gs) = [8] /\
+  flags (reg_frames [fr held; fr raw_empty; fr held] gs) = Some [[false; false]] /\
+  ids held (reg_frames [fr held; fr raw_empty] gs) = [7; 8].
+Proof. vm_compute. repeat split. Qed.
+
 Example C08_nonvacuous :
   let r := mkRaw [1; 103] [] (0%Q, 0%Q) (0%Q, 0%Q) [] [2] in
   phys r None (IKey 1 2) = true /\ phys r None (IKey 1 6) = false /\
@@ -49,3 +320,38 @@ Print Assumptions C08_flag_one_frame.
 Print Assumptions C08_flag_history.
 Print Assumptions C08_fresh_instance_suppressed.
 Print Assumptions C08_independent_of_consumption.
+Print Assumptions C08_action_evaluation.
+Print Assumptions C08_action_evaluation_flags.
+Print Assumptions C08_suppressed_does_not_contribute.
+Print Assumptions C08_instance_update.
+Print Assumptions C08_registry_update.
+Print Assumptions C08_registry_update_get.
+Print Assumptions C08_flags_after_unfold.
+Print Assumptions C08_frames_chain.
+Print Assumptions C08_frames_instance.
+Print Assumptions C08_frames_registry.
+Print Assumptions C08_frames_world.
+Print Assumptions C08_frames_by_position.
+Print Assumptions C08_fresh_after_frames.
+Print Assumptions C08_fresh_instance_after_frames.
+Print Assumptions C08_fresh_instance_device.
+Print Assumptions C08_fresh_by_position.
+Print Assumptions C08_fresh_then_frames_registry.
+Print Assumptions C08_fresh_then_frames_world.
+Print Assumptions C08_action_invocations.
+Print Assumptions C08_suppressed_invokes_nothing.
+Print Assumptions C08_unsuppressed_invokes_all.
+Print Assumptions C08_all_suppressed_invocations.
+Print Assumptions C08_update_invocations.
+Print Assumptions C08_every_record.
+Print Assumptions C08_frame_invocations.
+Print Assumptions C08_constructor_suppressed.
+Print Assumptions C08_add_new_group.
+Print Assumptions C08_add_exclusive_entry.
+Print Assumptions C08_insert_first_holder.
+Print Assumptions C08_insert_exclusive.
+Print Assumptions C08_rebuild_exclusive.
+Print Assumptions C08_rebuild_shared.
+Print Assumptions C08_rebuild.
+Print Assumptions C08_rebuild_suppressed.
+Print Assumptions C08_rebuild_operation.
